@@ -2,7 +2,7 @@
 # evaluates every finished seeded mutation that has not been evaluated yet, one after the other (they share /repo)
 cd /verif
 for p in "$@"; do
-  for v in a b c d e f g; do
+  for v in a b c d e f g h; do
     d=/tmp/iprm-$p/_mutation/$v
     [ -f $d/patch.diff ] || continue
     name=$p; [ $v != a ] && name=$p-$v
